@@ -515,7 +515,7 @@ def _it(rng, s):
     return f"<{t}>{s}</{t}>"
 
 
-def mk_full(rng):
+def mk_full(rng, seen=None):
     P, D = rng.choice(MK_NAMES), rng.choice(MK_NAMES)
     if rng.random() < 0.3:
         P = word(rng)
@@ -531,6 +531,18 @@ def mk_full(rng):
         if rng.random() < 0.3:
             cite += f", {rng.randint(1, 600)} {rng.choice(MK_REPS)} {rng.randint(1, 900)}"
     cite += f" ({rng.choice(['', '7th Cir. ', 'Pa. '])}{rng.randint(1900, 2020)})"
+    if rng.random() < 0.25:
+        # an explanatory parenthetical that itself cites by (emphasised) party name: the names of this very
+        # citation or of an earlier one, inside this citation's full span
+        n = rng.choice([P, D] + list(seen or []))
+        if " " in n and rng.random() < 0.3:
+            n = n.split()[-1]
+        inner = rng.choice([_it(rng, n) + f", {rng.randint(1, 600)} {rng.choice(MK_REPS)} at {rng.randint(1, 900)}",
+                            _it(rng, n + ",") + f" {rng.randint(1, 600)} {rng.choice(MK_REPS)}, at {rng.randint(1, 900)}",
+                            _it(rng, n) + f", supra, at {rng.randint(1, 900)}",
+                            _it(rng, n) + f" at {rng.randint(1, 900)}",
+                            _it(rng, n + " v. " + rng.choice(MK_NAMES)) + f", {rng.randint(1, 600)} {rng.choice(MK_REPS)} {rng.randint(1, 900)}"])
+        cite += " (" + rng.choice(["quoting ", "citing ", "discussing ", ""]) + inner + ")"
     if style < 0.4:
         nm = _it(rng, f"{P} v. {D},")
     elif style < 0.7:
@@ -567,7 +579,7 @@ def markup_doc(rng):
     parts, seen = [], []
     for _ in range(rng.randint(1, 6)):
         if not seen or rng.random() < 0.4:
-            f, (P, D) = mk_full(rng)
+            f, (P, D) = mk_full(rng, seen)
             parts.append(f)
             seen += [P, D]
         else:
